@@ -44,6 +44,14 @@ Two further streams (added after the red team):
   its row (retry until success: C07's XRefused treatment) - a `SReturn` without its `SExec; SCommit` is not `legal`, and
   the direct oracle finds the acknowledged individual missing.
 
+* red-team round 3: (a) chains of sessions on one file - earlier sessions KILLED at their own crash point or completed, the next
+  process opens the file in write mode and numbers its own individuals, in the unchanged code, from the number of rows it found
+  (checked: correspondence `id allocation`); every individual acknowledged in ANY session must still be there with its own vector
+  (oracle clause `acknowledged individual replaced`).  (b) the problem description changes after the store was created
+  (GradientEvaluator / WorstCaseEvaluator constructors, in-place edits of parameters / costs / name); every statement other than
+  the upsert issued after creation is a pair of crash points and a correspondence mismatch (`meta rows`: the model writes the problem
+  rows once), the file must keep its first description.
+
 Nothing in /repo is changed: the crash points are injected by the proxy and by the scenario's objective.
 """
 import json
@@ -263,7 +271,41 @@ def server_main():
                 emit({"e": "exec", "c": self._conn._cid, "i": params[0], "p": int(pm.group(1)) if pm else None})
                 boundary("after execute")
                 return r
+            if CTL["armed"] and not sql.lstrip().upper().startswith(("PRAGMA", "SELECT")):
+                return self._other(sql[:80], lambda: self._real.execute(sql, params))
             return self._real.execute(sql, params)
+
+        def _other(self, text, call):
+            """any statement other than the upsert of an individual, once the store has been created (red-team round 3): the
+            unchanged store issues none.  A crash point before and after it, reported as `stmt` (the model has no such step)"""
+            boundary("before statement")
+            r = call()
+            self._conn._dirty = True
+            emit({"e": "stmt", "c": self._conn._cid, "sql": text})
+            boundary("after statement")
+            return r
+
+        def executescript(self, script):
+            if CTL["armed"]:
+                return self._other("executescript: " + script[:80], lambda: self._real.executescript(script))
+            return self._real.executescript(script)
+
+        def executemany(self, sql, rows):
+            if CTL["armed"] and sql.startswith(UPSERT):
+                rows = [list(r) for r in rows]
+                boundary("before execute")
+                r = self._real.executemany(sql, rows)
+                self._conn._dirty = True
+                for row in rows:
+                    self._conn._ids.append(row[0])
+                    pm = POP.search(row[1][:4000]) if isinstance(row[1], str) else None
+                    emit({"e": "exec", "c": self._conn._cid, "i": row[0], "p": int(pm.group(1)) if pm else None, "many": True})
+                emit({"e": "many", "c": self._conn._cid, "n": len(rows)})
+                boundary("after execute")
+                return r
+            if CTL["armed"]:
+                return self._other("executemany: " + sql[:80], lambda: self._real.executemany(sql, rows))
+            return self._real.executemany(sql, rows)
 
         def __getattr__(self, name):
             return getattr(self._real, name)
@@ -280,6 +322,15 @@ def server_main():
 
         def cursor(self):
             return Cursor(self._real.cursor(), self)
+
+        def execute(self, sql, *a):                 # the connection's shortcuts create a cursor of their own
+            return self.cursor().execute(sql, *a)
+
+        def executescript(self, script):
+            return self.cursor().executescript(script)
+
+        def executemany(self, sql, rows):
+            return self.cursor().executemany(sql, rows)
 
         def commit(self):
             if CTL["armed"] and self._dirty:
@@ -428,6 +479,27 @@ def server_main():
             return r
 
         store.sync_individual, store.sync_all = sync_individual, sync_all
+        # the problem description changes AFTER the store has been created (red-team round 3): what the constructors of
+        # GradientEvaluator / WorstCaseEvaluator do (an algorithm built with evaluator_type GRADIENT / WORST_CASE after the
+        # store was attached), or the user edits parameters / costs / name in place.  The unchanged store writes main /
+        # parameters / costs once, at creation: the file keeps the description it was created with.
+        d = sc.get("describe")
+        if d == "gradient":
+            from artap.operators import GradientEvaluator
+            GradientEvaluator(alg)                  # appends {'name': 'sensitivity', ...} to problem.costs
+        elif d == "worst_case":
+            from artap.operators import WorstCaseEvaluator
+            WorstCaseEvaluator(alg)
+        elif d == "param_key":
+            problem.parameters[0]["note"] = "edited after the store was created"
+            problem.parameters.append({'name': 'x_3', 'initial_value': 0.0, 'bounds': [0, 1]})
+        elif d == "cost_edit":
+            problem.costs[0]["unit"] = "mm"
+        elif d == "rename":
+            problem.name = "renamed"
+            problem.description = "edited"
+        if d:
+            emit({"e": "described", "how": d, "costs": [c.get("name") for c in problem.costs], "parameters": [q.get("name") for q in problem.parameters]})
         if sc.get("reset_counter"):
             Individual.counter = 0          # a new interpreter that numbers its individuals from 0 again: ids collide with the rows
         crash = req["crash"]
@@ -568,10 +640,17 @@ def server_main():
                 os.remove(req["db"] + suffix)
             except OSError:
                 pass
-        pre_evs = []
-        if req["scenario"].get("pre"):       # an earlier, completed session of another process on the same file
-            pre_evs, _, _ = in_child(writer, dict(req, scenario=req["scenario"]["pre"], crash={"kind": "none"}), {"kind": "none"})
-            pre_evs.append({"e": "reopen"})
+        def earlier(sc):
+            """the earlier sessions of other processes on the same file, oldest first: completed, or KILLED at their own crash point
+            (sc["pre"]["crash"]); each is followed by `reopen`"""
+            if not sc.get("pre"):
+                return []
+            pre = sc["pre"]
+            cr = pre.get("crash", {"kind": "none"})
+            out = earlier(pre)
+            e1, _, _ = in_child(writer, dict(req, scenario=pre, crash=cr), cr)
+            return out + e1 + [{"e": "reopen"}]
+        pre_evs = earlier(req["scenario"])
         evs, status, lived = in_child(writer, req, req["crash"])
         evs = pre_evs + evs
         try:
@@ -652,9 +731,23 @@ def run(ctx):
         begun, returned, plan = [], [], {}
         failing, retried = {}, set()            # thread -> id whose objective call has just raised; ids that go round the loop again
         pend_pop, comm_pop, seen_pop = {}, {}, {}   # population_id in the statements: per connection pending / last committed / all, per id
+        # red-team round 3: sessions.  ack: (session, id) -> vector of the individual CREATED BY THAT SESSION whose synchronisation has
+        # returned; committed: ids with a committed statement so far; rows_at_open / new_ids: per continued session, the number of rows
+        # it found and the ids of the individuals it created (the unchanged code: Individual.from_dict draws - and keeps consumed - one
+        # id of the global counter per row it rebuilds, so a fresh process that found N rows numbers its own individuals N, N + 1, ...)
+        session, ack, committed, mine = 0, {}, set(), set()
+        rows_at_open, new_ids, forced = {}, {}, False
+        chain, t = [], sc
+        while t is not None:
+            chain.append(t)
+            t = t.get("pre")
+        forced = any(x.get("reset_counter") for x in chain)
         for e in evs:
             k = e.get("e")
             if k == "start":
+                if e["i"] not in mine:
+                    mine.add(e["i"])
+                    new_ids.setdefault(session, []).append(e["i"])
                 started[e["i"]] = e["v"]
                 if e["i"] in retried:           # the retry of a failed attempt: the SAME object, with the vector SFail gave it
                     retried.discard(e["i"])
@@ -674,6 +767,16 @@ def run(ctx):
                 begun = []
                 pend_pop.clear()
                 retried.clear()
+                session += 1
+                mine = set()
+                started = {}
+                rows_at_open[session] = len(committed)
+            elif k == "stmt":
+                if sum(1 for mm in ctx.mismatches if mm.get("correspondence") == "meta rows") < 10:
+                    ctx.mismatches.append({"what": "the writer issued %r after the store had been created: in the model main / parameters / costs are "
+                                                   "written once, at creation, and never again (C11_meta_survives), and the individuals table is "
+                                                   "written by the upsert only" % e.get("sql"),
+                                           "correspondence": "meta rows", "case": {"scenario": sc, "crash": crash}})
             elif k == "costs":
                 obj.append((started[e["i"]], e["c"]))
                 trace.append("SCosts %s" % zl(e["i"]))
@@ -699,9 +802,12 @@ def run(ctx):
                 trace.append("SCommit %d" % e["c"])
                 for i, pp in pend_pop.pop(e["c"], []):
                     comm_pop[i] = pp
+                    committed.add(i)
             elif k == "ret":
                 returned.append(e["i"])
                 trace.append("SReturn %s" % zl(e["i"]))
+                if e["i"] in mine and e["i"] in started:
+                    ack[(session, e["i"])] = started[e["i"]]
             elif k == "journal":
                 hist["journal_modes"][e["mode"]] = hist["journal_modes"].get(e["mode"], 0) + 1
                 if e["mode"].lower() in ("off", "memory"):
@@ -734,6 +840,26 @@ def run(ctx):
                 if i not in ids:
                     fail("synchronisation of individual %d had returned before the crash, but the store has no row for it" % i, sc, crash,
                          "returned id missing", id=i, rows=ids)
+            # every individual acknowledged in ANY session is still there with ITS OWN data: a later session re-synchronises the
+            # individuals it rebuilt from the rows (same data) and writes NEW ids for the individuals it creates itself
+            by_id = {r[0]: r for r in rd["rows"]}
+            if not forced:
+                for (s_no, i), v in sorted(ack.items()):
+                    r = by_id.get(i)
+                    if r is not None and json.dumps(r[1]) != json.dumps(v):
+                        fail("individual %d (vector %r) was synchronised in session %d of %d and acknowledged; the row of its id now holds "
+                             "vector %r: an individual created by a later session was given the id of a stored one and replaced it"
+                             % (i, [float.fromhex(t["f"]) if isinstance(t, dict) else t for t in v], s_no + 1, session + 1,
+                                [float.fromhex(t["f"]) if isinstance(t, dict) else t for t in r[1]]), sc, crash, "acknowledged individual replaced",
+                             id=i, session=s_no + 1)
+                for s_no, n_rows in sorted(rows_at_open.items()):
+                    ids_new = new_ids.get(s_no, [])
+                    exact_pre = all(x.get("crash", {"kind": "none"})["kind"] in ("none", "boundary", "objective") and x.get("procs", 1) == 1 for x in chain[1:])
+                    if ids_new and exact_pre and min(ids_new) != n_rows and sum(1 for mm in ctx.mismatches if mm.get("correspondence") == "id allocation") < 10:
+                        ctx.mismatches.append({"what": "session %d found %d rows when it opened the file and numbered its own individuals from %d: in the "
+                                                       "unchanged code every row rebuilt by Individual.from_dict consumes one id of the process's counter, "
+                                                       "so the new individuals are numbered from the number of rows" % (s_no + 1, n_rows, min(ids_new)),
+                                               "correspondence": "id allocation", "case": {"scenario": sc, "crash": crash}})
             for r in rd["rows"]:
                 iid, vec, costs, signed, state = r[0], r[1], r[2], r[3], r[4]
                 try:
@@ -798,7 +924,8 @@ def run(ctx):
 
     def count_points(evs):
         # (a write attempt that SQLite refuses at its execute has passed "before execute" and nothing else)
-        nb = sum(2 if e["e"] == "exec" else 1 if e["e"] == "commit" or (e["e"] == "refused" and e["at"] == "execute") else 0 for e in evs)
+        nb = sum(2 if (e["e"] == "exec" and not e.get("many")) or e["e"] in ("stmt", "many") else
+                 1 if e["e"] == "commit" or (e["e"] == "refused" and e["at"] == "execute") else 0 for e in evs)
         no = sum(1 for e in evs if e["e"] == "start")
         return nb, no
 
@@ -860,7 +987,34 @@ def run(ctx):
                  ({"alg": "nsga2", "n": 3, "g": 2, "seed": 64, "procs": 1, "lock": {"kind": "read", "at": 4, "r": 5}}, ctx.pick(16, "all"), few),
                  ({"alg": "sweep", "n": 3, "seed": 65, "procs": 1, "lock": {"kind": "read", "at": 1, "r": 1}}, ctx.pick(10, "all"), (1, 1)),
                  ({"alg": "sweep", "n": 6, "seed": 66, "procs": 2, "jitter": 0.002, "lock": {"kind": "read", "at": 2, "r": 7}}, ctx.pick(10, 40), few)]
+    # red-team round 3.  (a) runs CONTINUED into an existing store: the earlier sessions were KILLED (at their own crash point) or
+    # completed, the new process opens the file in write mode (rows rebuilt by Individual.from_dict), creates its own individuals
+    # - numbered, in the unchanged code, from the number of rows it found - and is killed at every point: every individual
+    # acknowledged in ANY session is still present with its own vector.  (`reset_counter` above is the harness forcing colliding ids,
+    # which the model allows; it is excluded from that clause)
+    scenarios += [
+        ({"alg": "sweep", "n": 3, "seed": 101, "procs": 1,
+          "pre": {"alg": "sweep", "n": 4, "seed": 102, "procs": 1, "crash": {"kind": "objective", "k": 3}}}, "all", few),
+        ({"alg": "sweep", "n": 3, "seed": 17, "procs": 1, "pre": {"alg": "sweep", "n": 3, "seed": 18, "procs": 1}}, ctx.pick(12, "all"), few),
+        ({"alg": "sweep", "n": 2, "seed": 103, "procs": 1,
+          "pre": {"alg": "sweep", "n": 3, "seed": 104, "procs": 1, "crash": {"kind": "boundary", "k": 4},
+                  "pre": {"alg": "sweep", "n": 3, "seed": 105, "procs": 1, "crash": {"kind": "boundary", "k": 5}}}}, "all", few),
+        ({"alg": "nsga2", "n": 3, "g": 2, "seed": 106, "procs": 1,
+          "pre": {"alg": "sweep", "n": 4, "seed": 107, "procs": 1, "crash": {"kind": "boundary", "k": 7}}}, ctx.pick(14, "all"), few),
+        # (b) the problem description changes AFTER the store was created (GradientEvaluator / WorstCaseEvaluator constructors append a
+        # 'sensitivity' cost; parameters / costs / name edited in place): the unchanged store writes main / parameters / costs once;
+        # kill points at every statement and commit of the run, the final sync_all included; the file keeps its first description
+        ({"alg": "sweep", "n": 3, "seed": 111, "procs": 1, "describe": "gradient"}, "all", few),
+        ({"alg": "sweep1", "n": 2, "seed": 112, "procs": 1, "describe": "worst_case"}, "all", few),
+        ({"alg": "nsga2", "n": 3, "g": 1, "seed": 113, "procs": 1, "describe": "param_key"}, ctx.pick(12, "all"), few),
+        ({"alg": "sweep", "n": 2, "seed": 114, "procs": 1, "describe": "rename"}, "all", few),
+        ({"alg": "sweep", "n": 2, "seed": 115, "procs": 1, "describe": "cost_edit",
+          "pre": {"alg": "sweep", "n": 2, "seed": 116, "procs": 1, "describe": "gradient"}}, "all", few)]
     if ctx.thorough:
+        scenarios += [({"alg": "epsmoea", "n": 3, "g": 1, "seed": 121, "procs": 1, "describe": "gradient",
+                        "pre": {"alg": "sweep", "n": 5, "seed": 122, "procs": 1, "crash": {"kind": "objective", "k": 2}}}, "all", few),
+                      ({"alg": "sweep", "n": 4, "seed": 123, "procs": 2, "jitter": 0.002, "describe": "worst_case",
+                        "pre": {"alg": "sweep", "n": 6, "seed": 124, "procs": 1, "crash": {"kind": "boundary", "k": 10}}}, 40, few)]
         scenarios += [({"alg": "sweep", "n": 30, "seed": 21, "procs": 1}, "all"),
                       ({"alg": "sweep", "n": 30, "seed": 22, "procs": 4, "jitter": 0.002}, 120),
                       ({"alg": "nsga2", "n": 6, "g": 4, "seed": 23, "procs": 1}, 250),
